@@ -36,16 +36,16 @@ theorem runPlan_total (h : Host) (p : Plan) : runPlan h p ≠ .fuel ∧ runPlan 
       · simp
       · split <;> simp
 
-/-- **termination** (partial: needs `supported`, whose last part - no mount above the output path -
-cannot be dropped, see `C17_terminates_full_fails`): for a well-formed host tree and a supported
-configuration (the only `tmp` mount is the output directory, no writable collection mount, no mount
-above the output path), `Copy`
-ends — with a collection or an error — within an explicit number of nested calls, however the
-links are arranged (cycles included). -/
-theorem C17_terminates (h : Host) (cfg : Cfg) (wf : HostWF h) (hs : supported cfg = true)
+/-- **termination**, at full strength: for every well-formed host tree and every configuration the
+driver runs (`runnable`: the only `tmp` mount is the output directory, no writable collection
+mount — wherever the collections are mounted, above the output path included), `Copy` ends — with a
+collection or an error — within an explicit number of nested calls, however the links are
+arranged (cycles included). (Before fix f009595 this was false for a collection mounted above the
+output path: finding F17c.) -/
+theorem C17_terminates (h : Host) (cfg : Cfg) (wf : HostWF h) (hs : runnable cfg = true)
     (fuel : Nat) (hf : fuelBound h cfg ≤ fuel) :
     (∃ t, copy h cfg fuel = .ok t) ∨ (∃ e, copy h cfg fuel = .err e) := by
-  have h1 := scan_ne_fuel h cfg wf hs fuel hf
+  have h1 := scan_ne_fuel h cfg wf fuel hf
   have h2 : scan h cfg fuel ≠ .unmodelled := walk_ne_unmodelled h cfg hs _ _ _
   unfold copy
   cases hsc : scan h cfg fuel with
@@ -60,11 +60,15 @@ theorem C17_terminates (h : Host) (cfg : Cfg) (wf : HostWF h) (hs : supported cf
     | err e => exact Or.inr ⟨e, rfl⟩
     | ok t => exact Or.inl ⟨t, rfl⟩
 
+/-- the walk itself never runs out of fuel, whatever the configuration -/
+theorem C17_terminates_walk (h : Host) (cfg : Cfg) (wf : HostWF h) (fuel : Nat) (hf : fuelBound h cfg ≤ fuel) :
+    scan h cfg fuel ≠ .fuel := scan_ne_fuel h cfg wf fuel hf
+
 theorem copy_err_of_scan_not_ok (h : Host) (cfg : Cfg) (wf : HostWF h) (hs : supported cfg = true)
     (fuel : Nat) (hf : fuelBound h cfg ≤ fuel) (hno : ∀ plan, scan h cfg fuel ≠ .ok plan) :
     ∃ e, copy h cfg fuel = .err e := by
-  have h1 := scan_ne_fuel h cfg wf hs fuel hf
-  have h2 : scan h cfg fuel ≠ .unmodelled := walk_ne_unmodelled h cfg hs _ _ _
+  have h1 := scan_ne_fuel h cfg wf fuel hf
+  have h2 : scan h cfg fuel ≠ .unmodelled := walk_ne_unmodelled h cfg (runnable_of_supported cfg hs) _ _ _
   unfold copy
   cases hsc : scan h cfg fuel with
   | fuel => exact absurd hsc h1
@@ -72,14 +76,9 @@ theorem copy_err_of_scan_not_ok (h : Host) (cfg : Cfg) (wf : HostWF h) (hs : sup
   | err e => exact ⟨e, rfl⟩
   | ok p => exact absurd hsc (hno p)
 
-/-! ### termination without "no mount above the output path" is false: finding F17c -/
+/-! ### the former finding F17c (fixed by f009595) -/
 
-/-- the full statement: `Copy` ends for every configuration the driver runs -/
-def C17_terminates_Full : Prop :=
-  ∀ (h : Host) (cfg : Cfg), HostWF h → runnable cfg = true →
-    ∃ fuel, (∃ t, copy h cfg fuel = .ok t) ∨ (∃ e, copy h cfg fuel = .err e)
-
-/-- F17c: a read-only collection mounted at `/c`, the output directory at `/c/out`, and `l -> ..` -/
+/-- a read-only collection mounted at `/c`, the output directory at `/c/out`, and `l -> ..` -/
 def wH3 : Host := [(["o"], .dir), (["o", "l"], .link false [".."])]
 def wC3 : Cfg := { ctrOut := ["c", "out"], hostOut := ["o"],
                    mounts := [(["c"], { kind := "collection", coll := some [] }), (["c", "out"], { kind := "tmp" })],
@@ -91,43 +90,16 @@ theorem w3_n1 : namei wH3 [] ["o", "l"] 0 = .found ["o", "l"] (.link false [".."
 theorem w3_c : wH3.children ["o"] = ["l"] := by decide
 theorem w3_s : sortNames ["l"] = ["l"] := by decide
 
-/-- every call on the output directory with at least one follow left runs out of any fuel: the link
-leads to `/c`, whose extract is followed by `walkMountsBelow`, which re-enters `/c/out` with the
-budget `0` (one follow) -/
-theorem w3_loop : ∀ (fuel n : Nat) (dest : Path) (inc : Bool) (st : Plan), 1 ≤ n →
-    walk wH3 wC3 fuel (.host dest ["c", "out"] n inc) st = .fuel := by
-  intro fuel
-  induction fuel using Nat.strongRecOn with
-  | ind fuel ih =>
-    intro n dest inc st hn
-    obtain ⟨k, rfl⟩ : ∃ k, n = k + 1 := ⟨n - 1, by omega⟩
-    rcases fuel with _ | _ | _ | _ | _ | _ | _ | fuel <;>
-      (cases inc <;>
-        simp [walk, wC3, srcMount, underSecret, rootLen, Res.bind, w3_n0, w3_n1, w3_c, w3_s, skipMount, Cfg.mount,
-          copyRegular, Plan.addDir, Plan.addKeep, Plan.addFile, Plan.addFrags, cleanAbs, cleanAbsStep, extract,
-          cleanRel, belowMaxSymlinks])
-    all_goals (
-      have h1 := fun st => ih fuel (by omega) 1 (dest ++ ["l", "out"]) false st (Nat.le_refl 1)
-      simp only [wC3] at h1
-      simp [h1])
+/-- the cycle through the collection above the output path now ends with "too many symlinks":
+every re-entry of the output directory costs a follow (before the fix: `∀ fuel, scan … = .fuel`) -/
+theorem w3_fails : scan wH3 wC3 (fuelBound wH3 wC3) = .err .symlinks := by
+  have hb : fuelBound wH3 wC3 = 220 := by decide
+  rw [hb]
+  simp [scan, walk, wC3, srcMount, underSecret, rootLen, Res.bind, w3_n0, w3_n1, w3_c, w3_s, skipMount, Cfg.mount,
+    copyRegular, Plan.addDir, Plan.addKeep, Plan.addFile, Plan.addFrags, cleanAbs, cleanAbsStep, extract,
+    cleanRel, belowMaxSymlinks, limitFollowSymlinks]
 
-theorem w3_diverges (fuel : Nat) : scan wH3 wC3 fuel = .fuel := by
-  unfold scan
-  rcases fuel with _ | fuel
-  · simp [walk]
-  · have h1 := fun st => w3_loop fuel (limitFollowSymlinks + 1) [] true st (by simp)
-    simp only [wC3] at h1
-    simp [walk, wC3, srcMount, underSecret, rootLen, h1]
-
-/-- the full statement is false of the current code (F17c): with a collection mounted above the
-output path, a link back into it is followed forever -/
-theorem C17_terminates_full_fails : ¬ C17_terminates_Full := by
-  intro hfull
-  obtain ⟨fuel, hok | herr⟩ := hfull wH3 wC3 ⟨by decide, by decide, by decide⟩ (by decide)
-  · obtain ⟨t, ht⟩ := hok
-    simp [copy, w3_diverges, Res.bind] at ht
-  · obtain ⟨e, he⟩ := herr
-    simp [copy, w3_diverges, Res.bind] at he
+example : runnable wC3 = true ∧ supported wC3 = false := by decide
 
 /-! ## special files -/
 
